@@ -59,6 +59,8 @@ def _pure_path(e):
         return all(_pure_path(v) for v in e.values)
     if isinstance(e, ast.Slice):
         return all(x is None or _pure_path(x) for x in (e.lower, e.upper, e.step))
+    if isinstance(e, ast.Tuple) and isinstance(e.ctx, ast.Load):
+        return all(_pure_path(x) for x in e.elts)          # an immutable display of values is a value
     return False
 
 
